@@ -73,7 +73,11 @@ def run_sharded(prop, tier, seed, nshards, timeout):
         for flags in flavours:
             flag = ''.join(flags)
             out = os.path.join(tmpdir, f'shard0{flag}.json')
-            cmd = [sys.executable, *flags, '-m', 'vlib.main', prop, tier, '--shard', '0', str(nshards), '--out', out]
+            # (the flavour re-runs are as large as in the quick tier, in both tiers: they look for behaviour that depends
+            # on how the interpreter was started, not for rare inputs - and a thorough-sized shard under `-X dev` runs
+            # twice as long as any other shard of its check)
+            f_shards = max(1, min(getattr(mod, 'QUICK_SHARDS', 1), os.cpu_count() or 1))
+            cmd = [sys.executable, *flags, '-m', 'vlib.main', prop, 'quick', '--shard', '0', str(f_shards), '--out', out]
             env = dict(os.environ, VERIF_SEED=str(seed), VERIF_FLAVOUR=f'python {" ".join(flags)}')
             procs.append((f'0 under python {" ".join(flags)}', out, subprocess.Popen(cmd, env=env, stdout=open(out + '.log', 'wb'),
                                                                                        stderr=subprocess.STDOUT)))
